@@ -224,8 +224,13 @@ func visitInstr(fr *frame, instr ssa.Instruction) continuation {
 		store(mustDeref(instr.Addr.Type()), addr, fr.get(instr.Val))
 
 	case *ssa.If:
+		cv := fr.get(instr.Cond)
+		if sc, isSym := cv.(*Sym); isSym {
+			fr.i.branch(fr, instr, sc)
+			return kJump
+		}
 		succ := 1
-		if fr.i.decide(fr.get(instr.Cond)) {
+		if cv.(bool) {
 			succ = 0
 		}
 		fr.prevBlock, fr.block = fr.block, fr.block.Succs[succ]
